@@ -1,13 +1,16 @@
-"""C19 - table post-processing scripts: point-wise formulas and pass-through from the Perl compiler's op-tree (ALG, SIB, WHO)."""
+"""C19 - table post-processing scripts: point-wise formulas and pass-through, decided on the folded Perl op-tree (ALG, SIB, WHO)."""
 import re
+import itertools
 import sympy as sp
 from vsa import front
-from vsa import perlops as P
+from vsa import perlfold as PF
 from vsa.alg import S, F as Fn, is_zero
+from vsa.cases import decide, executes, resolve_ite, ites
 from vsa.front import AnalysisBroken
 
 LEVEL = "other"
 DIR = "csg/share/scripts/inverse/"
+Q = sp.Rational
 
 
 def leq(a, b):
@@ -19,173 +22,449 @@ def leq(a, b):
 
 
 def el(arr, idx):
-    return Fn("elem")(S("@" + arr), idx if not isinstance(idx, str) else S(idx))
+    return Fn("elem")(S("@" + arr.lstrip("@")), idx)
 
 
-def gstr(a):
-    return [(P.cstr(c), p) for c, p in a["guards"]]
+def in_loop(e, lid):
+    return any(isinstance(g[0], tuple) and g[0] and g[0][0] == "loop" and g[0][1] == lid for g in e["guards"])
 
 
-def inner_guards(a):
-    """guards without the loop condition (first comparison on the loop variable)"""
-    return [(P.cstr(c), p) for c, p in a["guards"] if not re.match(r"^\((<=|>=|<|>) \$i ", P.cstr(c))]
+def threshold(leaf, atom, thr):
+    """polarity p such that  leaf == (atom > thr)  if p else  leaf == !(atom > thr); None if the leaf is not that threshold test"""
+    if not (isinstance(leaf, tuple) and len(leaf) == 3 and leaf[0] in ("<", "<=", ">", ">=")):
+        return None
+    if not any(hasattr(x, "has") and x.has(atom) for x in leaf[1:]):
+        return None
+    vals = [decide(leaf, {atom: v}) for v in (thr, 2 * thr + 1, thr - 1)]
+    if vals == [False, True, False]:
+        return True
+    if vals == [True, False, True]:
+        return False
+    return None
+
+
+class Script:
+    def __init__(self, rep, name):
+        self.name = name
+        self.loc = front.repo(DIR + name)
+        main, subs = PF.load(DIR + name)
+        self.fo = PF.PFold(main, subs).run()
+        self.conds = getattr(self.fo, "conds", {})
+        rep.functions.add("%s (main program + %d subs, %d events)" % (name, len(subs), len(self.fo.events)))
+
+    def stores(self, arr, lid=None):
+        return [e for e in self.fo.events if e["kind"] == "store" and e["array"] == "@" + arr.lstrip("@") and (lid is None or in_loop(e, lid))]
+
+    def loop(self, lid):
+        return [l for l in self.fo.loops if l["id"] == lid][0]
+
+    def loop_of(self, e):
+        lids = [g[0][1] for g in e["guards"] if isinstance(g[0], tuple) and g[0] and g[0][0] == "loop"]
+        return lids[-1] if lids else None
+
+    def resolve(self, v, atoms, oracle, sub=None):
+        if not hasattr(v, "args"):
+            return v
+        r = resolve_ite(v, lambda cs: decide(self.conds[cs], sub, atoms, oracle, self.conds) if cs in self.conds else None)
+        return r
+
+    def final(self, arr, idx, lid, atoms, oracle, sub=None):
+        """value the element has after one iteration in the scenario: the last store to it that happens (None: untouched)"""
+        val = None
+        for e in self.stores(arr, lid):
+            if sp.simplify(e["idx"][0] - idx) != 0:
+                continue
+            x = executes(PF.inner(e, lid) if lid else e, sub, atoms, oracle, self.conds)
+            if x is None:
+                raise AnalysisBroken("%s line %s: cannot decide whether %s is written for %s" % (self.name, e["line"], e["target"], atoms))
+            if x:
+                val = self.resolve(e["value"], atoms, oracle, sub)
+        return val
+
+    def bounds(self, lid):
+        """(first index, last index, direction) of a loop over a table"""
+        l = self.loop(lid)
+        if l["kind"] == "enteriter":
+            if not l.get("range") or len(l["items"]) != 2:
+                return None
+            a, b = l["items"]
+            return (b, a, -1) if l.get("reversed") else (a, b, 1)
+        syms = l.get("syms", {})
+        c = l.get("cond")
+        if not (isinstance(c, tuple) and len(c) == 3):
+            return None
+        var = [nm for nm, sy in syms.items() if sy in (c[1], c[2])]
+        if len(var) != 1:
+            return None
+        v = var[0]
+        step = l["step"].get(v)
+        if step is None:
+            return None
+        d = sp.simplify(step - syms[v])
+        first = l["init"].get(v)
+        op, lhs, rhs = c
+        if rhs == syms[v]:
+            op, lhs, rhs = {"<": ">", ">": "<", "<=": ">=", ">=": "<=", "==": "==", "!=": "!="}[op], rhs, lhs
+        if d == 1 and op in ("<=", "<"):
+            return (first, rhs if op == "<=" else rhs - 1, 1)
+        if d == -1 and op in (">=", ">"):
+            return (first, rhs if op == ">=" else rhs + 1, -1)
+        return None
 
 
 def run(rep, tier):
-    rep.explanation = ("The Perl compiler's op-tree (perl -MO=Concise; compile phase only, nothing is executed) of each script is parsed; "
-                       "every assignment is folded to a symbolic value with its guards (cond_expr/and/or ancestors) and compared with the "
-                       "documented point-wise formula; the arrays handed to saveto_table must be the grid/flag arrays read by readin_table.")
-    rep.rule("R19.1", "formulas: IBI dU = kBT ln(g_cur/g_tgt) under both > 1e-10 (flag i) else carried value (flag o), both sweeps alike; Boltzmann "
-                      "inversion -kBT ln(P/norm), norm in {1, x^2, sin x}; linearop a*y+b (errors a*err); shift y - zero with zero the minimum over "
+    rep.explanation = ("The Perl compiler's op-tree (perl -MO=Concise; compile phase only, nothing is executed) of each script is folded: scalars "
+                       "through their definitions (conditional definitions become ite terms, user subs are inlined through `my (...) = @_`), array "
+                       "elements stay atoms and every element write is an event with its path condition (if/elsif/else, unless, statement modifiers, "
+                       "next).  The documented point-wise formulas are decided per scenario: for every assignment of the predicates the write depends "
+                       "on (rdf above threshold, flag matches, interaction type) the value the table element finally receives is compared with the "
+                       "formula; loops are checked for their range and direction; the arrays handed to saveto_table must be the grid/flag arrays "
+                       "read by readin_table.")
+    rep.rule("R19.1", "formulas: IBI dU = kBT ln(g_cur/g_tgt) where both > 1e-10 and the potential is defined (flag i), else the last valid value is "
+                      "continued (flag o), forward from the rdf maximum to the end and backward to the start; Boltzmann inversion -kBT ln(P/norm), "
+                      "norm in {1, x^2, sin x}, nan/u where P <= dist_min; linearop a*y+b (errors a*err); shift y - zero with zero the minimum over "
                       "flagged points (bonded) / last point (non-bonded); smoothing (1/4,1/2,1/4) interior and (2y0+y1)/3 ends, only for flag i; "
                       "integration by the trapezoid recurrence")
     rep.rule("R19.2", "pass-through: the x array and the flag array written by saveto_table* are the ones filled by readin_table* (grid and flags preserved)")
     scripts = ["update_ibi_pot.pl", "dist_boltzmann_invert.pl", "table_linearop.pl", "potential_shift.pl", "table_smooth.pl", "table_integrate.pl"]
-    trees = {s_: P.load(DIR + s_) for s_ in scripts}
     rep.units = [front.repo(DIR + s_) for s_ in scripts]
-    rep.trusted.append("perl's own compiler (B::Concise op-tree), vsa/perlops.py")
-    A = {s_: P.assignments(t) for s_, t in trees.items()}
-    for s_ in scripts:
-        rep.functions.add("%s (main program, %d assignments)" % (s_, len(A[s_])))
+    rep.trusted.append("perl's own compiler (B::Concise op-tree), vsa/perlfold.py")
 
-    # ---------------------------------------------------------------- update_ibi_pot.pl
-    sc = "update_ibi_pot.pl"
-    loc = front.repo(DIR + sc)
-    i = S("$i")
-    want = S("$pref") * sp.log(el("rdf_cur", i) / el("rdf_aim", i))
-    main = [a for a in A[sc] if a["target"] == el("dpot", i) and a["value"].has(sp.log)]
-    rep.floor("R19.1", len(main), 2, "IBI update assignments (two sweeps)")
-    tgt_guard = "(and (> elem(@rdf_aim, $i) 1/10000000000) (> elem(@rdf_cur, $i) 1/10000000000))"
-    sweeps = []
-    for k, a in enumerate(main):
-        g = inner_guards(a)
-        ok = leq(a["value"], want) and g == [(tgt_guard, True)]
-        rep.check(ok, "R19.1", "ibi|update#%d" % k, "dU = kBT*ln(g_cur/g_tgt) where both > 1e-10",
-                  "update_ibi_pot.pl line %d: dU[i] = %s under %s; required pref*log(rdf_cur/rdf_aim) under both rdfs > 1e-10" % (a["line"], a["value"], g), "%s:%d" % (loc, a["line"]), sample=True)
-        # the siblings of this sweep: flags and the carried value
-        same = [b for b in A[sc] if b["guards"][:1] == a["guards"][:1] and b is not a]
-        fl_i = [b for b in same if b["target"] == el("flag", i) and str(b["value"]) == '"i"' and inner_guards(b) == [(tgt_guard, True)]]
-        carry = [b for b in same if b["target"] == el("dpot", i) and b["value"] == S("$value") and inner_guards(b) == [(tgt_guard, False)]]
-        fl_o = [b for b in same if b["target"] == el("flag", i) and str(b["value"]) == '"o"' and inner_guards(b) == [(tgt_guard, False)]]
-        keep = [b for b in same if b["target"] == S("$value") and b["value"] == el("dpot", i)]
-        rep.check(len(fl_i) == 1 and len(carry) == 1 and len(fl_o) == 1 and len(keep) == 1, "R19.1", "ibi|carry#%d" % k,
-                  "valid points flagged i; elsewhere the last valid value is continued with flag o",
-                  "update_ibi_pot.pl sweep %d: flag/continuation assignments are incomplete (i-flag %d, carried value %d, o-flag %d, value update %d)" % (k, len(fl_i), len(carry), len(fl_o), len(keep)),
-                  "%s:%d" % (loc, a["line"]))
-        sweeps.append((a["value"], g))
-    if len(sweeps) != 2:
-        raise AnalysisBroken("update_ibi_pot.pl: the two sweeps over the table were not recognised (found %d update assignments in loops over $i)" % len(sweeps))
-    rep.check(len(sweeps) == 2 and leq(sweeps[0][0], sweeps[1][0]) and sweeps[0][1] == sweeps[1][1], "R19.1", "ibi|sweeps-agree", "forward and backward sweep use the same formula and guard", "the two sweeps of update_ibi_pot.pl disagree: %s" % sweeps, loc)
-    passthrough(rep, trees[sc], sc, "r_aim", None, written_flag="flag")
-
-    # ---------------------------------------------------------------- dist_boltzmann_invert.pl
-    sc = "dist_boltzmann_invert.pl"
-    loc = front.repo(DIR + sc)
-    inv = [a for a in A[sc] if a["target"] == el("pot", i) and a["value"].has(sp.log)]
-    ok = len(inv) == 1 and leq(inv[0]["value"], -S("$kbT") * sp.log(el("dist", i) / S("$norm")))
-    g = inner_guards(inv[0]) if inv else []
-    if ok and not any("$dist_min" in x for x, _p in g):
-        raise AnalysisBroken("dist_boltzmann_invert.pl: the guard of the inversion (dist > dist_min) is not in a recognised form: %s" % g)
-    ok = ok and g[:1] == [("(> elem(@dist, $i) $dist_min)", True)]
-    rep.check(ok, "R19.1", "boltzmann|formula", "U = -kBT ln(P/norm) where P > dist_min", "dist_boltzmann_invert.pl computes %s under %s" % (inv[0]["value"] if inv else "?", g), loc, sample=True)
-    norms = {}
-    for a in A[sc]:
-        if a["target"] == S("$norm"):
-            key = [x for x, p in inner_guards(a) if "$type" in x and p]
-            norms[key[-1] if key else "default"] = a["value"]
-    x = el("x", i)
-    okn = norms.get("default") == 1 and is_zero(norms.get('(eq $type "bond")', 0) - x * x) and is_zero(norms.get('(eq $type "angle")', 0) - sp.sin(x))
-    rep.check(okn, "R19.1", "boltzmann|norm", "norm = 1 (default), x^2 (bond), sin x (angle)", "dist_boltzmann_invert.pl normalisations are %s" % {k: str(v) for k, v in norms.items()}, loc, sample=True)
-    passthrough(rep, trees[sc], sc, "x", "flag")
-
-    # ---------------------------------------------------------------- table_linearop.pl
-    sc = "table_linearop.pl"
-    loc = front.repo(DIR + sc)
-    a_, b_ = S("$a"), S("$b")
-    lin = {str(a["target"]): a for a in A[sc] if str(a["target"]) in ("elem(@val, $i)", "elem(@r, $i)", "elem(@errors, $i)")}
-    ok = is_zero(lin.get("elem(@val, $i)", {"value": 0})["value"] - (a_ * el("val", i) + b_)) and is_zero(lin.get("elem(@r, $i)", {"value": 0})["value"] - (a_ * el("r", i) + b_)) \
-        and is_zero(lin.get("elem(@errors, $i)", {"value": 0})["value"] - a_ * el("errors", i))
-    rep.check(ok, "R19.1", "linearop|formula", "y' = a*y + b, x' = a*x + b, err' = a*err", "table_linearop.pl computes %s" % {k: str(v["value"]) for k, v in lin.items()}, loc, sample=True)
-    passthrough(rep, trees[sc], sc, "r", "flag")
-
-    # ---------------------------------------------------------------- potential_shift.pl
-    sc = "potential_shift.pl"
-    loc = front.repo(DIR + sc)
-    sh = [a for a in A[sc] if a["target"] == el("dpot", i) and a["op"] == "-="]
-    ok = len(sh) == 1 and sh[0]["value"] == S("$zero") and not inner_guards(sh[0])
-    rep.check(ok, "R19.1", "shift|formula", "y[i] -= zero for every point", "potential_shift.pl shifts with %s" % [(str(a["value"]), a["op"], inner_guards(a)) for a in sh], loc, sample=True)
-    z = [a for a in A[sc] if a["target"] == S("$zero")]
-    zs = {(str(a["value"]), tuple(x for x, p in inner_guards(a) if p and "$type" not in x and "lineseq" not in x)) for a in z}
-    want_z = {("undef", ()), ("elem(@dpot, last(@r))", ()),
-              ("elem(@dpot, $i)", ("(and (match elem(@flag, $i) [i]) (not (defined $zero)))",)),
-              ("elem(@dpot, $i)", ("(and (match elem(@flag, $i) [i]) (< elem(@dpot, $i) $zero))",))}
-    rep.check(zs == want_z, "R19.1", "shift|zero", "zero = last point (non-bonded) / minimum over points flagged i, first one taken when zero is still undefined",
-              "potential_shift.pl determines the shift by %s; required %s (a truthiness test instead of defined() loses a minimum that is exactly 0)" % (sorted(zs), sorted(want_z)), loc, sample=True)
-    nb = [a for a in z if str(a["value"]) == "elem(@dpot, last(@r))"]
-    rep.check(len(nb) == 1 and gstr(nb[0])[:1] == [('(eq $type "non-bonded")', True)], "R19.1", "shift|non-bonded", "non-bonded: shift by the last point", "non-bonded shift is %s" % [gstr(a) for a in nb], loc)
-    passthrough(rep, trees[sc], sc, "r", "flag")
-
-    # ---------------------------------------------------------------- table_smooth.pl
-    sc = "table_smooth.pl"
-    loc = front.repo(DIR + sc)
-    pc = lambda k: el("pot_cur", k)
-    q = sp.Rational
-    sm = [a for a in A[sc] if str(a["target"]).startswith("elem(@pot,")]
-    inner = [a for a in sm if a["target"] == el("pot", i) and a["value"].has(pc(i - 1))]
-    ok = len(inner) == 1 and is_zero(inner[0]["value"] - (q(1, 4) * pc(i - 1) + q(1, 2) * pc(i) + q(1, 4) * pc(i + 1))) and inner_guards(inner[0]) == [('(eq elem(@flag_cur, $i) "i")', True)]
-    rep.check(ok, "R19.1", "smooth|interior", "(1/4, 1/2, 1/4) stencil for interior points flagged i", "table_smooth.pl interior smoothing is %s under %s" % (
-        inner[0]["value"] if inner else "?", inner_guards(inner[0]) if inner else "?"), loc, sample=True)
-    last = Fn("last")(S("@pot_cur"))
-    e0 = [a for a in sm if a["target"] == el("pot", sp.Integer(0)) and a["value"].has(pc(sp.Integer(1)))]
-    eN = [a for a in sm if a["target"] == el("pot", last) and a["value"].has(pc(last - 1))]
-    ok = len(e0) == 1 and is_zero(e0[0]["value"] - (2 * pc(sp.Integer(0)) + pc(sp.Integer(1))) / 3) and len(eN) == 1 and is_zero(eN[0]["value"] - (2 * pc(last) + pc(last - 1)) / 3)
-    rep.check(ok, "R19.1", "smooth|ends", "(2 y0 + y1)/3 at both ends", "table_smooth.pl end smoothing is %s / %s" % ([str(a["value"]) for a in e0], [str(a["value"]) for a in eN]), loc, sample=True)
-    copies = [a for a in sm if a["value"] in (pc(i), pc(sp.Integer(0)), pc(last)) and a["target"] in (el("pot", i), el("pot", sp.Integer(0)), el("pot", last))]
-    rep.check(len(copies) == 3, "R19.1", "smooth|unflagged-kept", "points not flagged i keep their value", "table_smooth.pl does not copy unflagged points unchanged (%d of 3 copies found)" % len(copies), loc)
-    passthrough(rep, trees[sc], sc, "r_cur", "flag_cur")
-
-    # ---------------------------------------------------------------- table_integrate.pl
-    sc = "table_integrate.pl"
-    loc = front.repo(DIR + sc)
-    r_ = lambda k: el("r", k)
-    f_ = lambda k: el("force", k)
-    hh = [a for a in A[sc] if a["target"] == S("$hh")]
-    pots = [a for a in A[sc] if str(a["target"]).startswith("elem(@pot,") and a["value"].has(S("$hh"))]
-    rep.floor("R19.1", len(pots), 2, "trapezoid recurrences")
-    for a in pots:
-        g = [x for x, p in gstr(a) if "$from" in x]
-        right = any(p for x, p in gstr(a) if x == '(eq $from "right")')
-        if right:
-            want_v = el("pot", i + 1) - S("$hh") * (f_(i + 1) + f_(i))
-            want_h = q(1, 2) * (r_(i + 1) - r_(i))
-        else:
-            want_v = el("pot", i - 1) + S("$hh") * (f_(i) + f_(i - 1))
-            want_h = q(1, 2) * (r_(i) - r_(i - 1))
-        hs = [h for h in hh if any(p == right for x, p in gstr(h) if x == '(eq $from "right")') and not any("with_errors" in x and p for x, p in gstr(h))]
-        ok = is_zero(a["value"] - want_v) and a["target"] == el("pot", i) and bool(hs) and is_zero(hs[0]["value"] - want_h)
-        rep.check(ok, "R19.1", "integrate|%s" % ("right" if right else "left"), "trapezoid: U_i = U_(i+-1) -+ (r_(i+1)-r_i)/2 (f_i + f_(i+-1))",
-                  "table_integrate.pl (%s) recurrence is %s with hh = %s" % ("from right" if right else "from left", a["value"], [str(h["value"]) for h in hs][:1]), loc, sample=True)
-    start = {str(a["target"]): a["value"] for a in A[sc] if str(a["target"]) in ("elem(@pot, last(@r))", "elem(@pot, 0)") and a["value"] == 0}
-    rep.check(len(start) == 2, "R19.1", "integrate|origin", "integration constant: U = 0 at the starting end", "table_integrate.pl does not start from 0 at the chosen end (%s)" % start, loc)
-    passthrough(rep, trees[sc], sc, "r", "flag")
+    check_ibi(rep)
+    check_boltzmann(rep)
+    check_linearop(rep)
+    check_shift(rep)
+    check_smooth(rep)
+    check_integrate(rep)
     rep.assumptions += ["shell wrappers (csg_table, csg_call), table_combine/scale/extrapolate and csg_resample's differentiation are not covered",
                         "integration and differentiation being mutually inverse up to discretisation error is numerical: not decided",
                         "CsgFunctions.pm's readin/saveto column order is trusted (its parsing loops are not folded)"]
 
 
-def passthrough(rep, tree, sc, xarr, flagarr, written_flag=None):
-    cs = P.calls(tree)
-    reads = [c for c in cs if c[0].endswith(("readin_table", "readin_table_err"))]
-    saves = [c for c in cs if c[0].endswith(("saveto_table", "saveto_table_err"))]
-    loc = front.repo(DIR + sc)
+# ------------------------------------------------------------------------------------------------ update_ibi_pot.pl
+def check_ibi(rep):
+    sc = Script(rep, "update_ibi_pot.pl")
+    main = [e for e in sc.stores("dpot") if e["value"] is not None and hasattr(e["value"], "has") and e["value"].has(sp.log)]
+    lids = []
+    for e in main:
+        l = sc.loop_of(e)
+        if l and l not in lids:
+            lids.append(l)
+    rep.floor("R19.1", len(lids), 2, "IBI sweeps (loops that write the update)")
+    if len(lids) != 2:
+        raise AnalysisBroken("update_ibi_pot.pl: expected two sweeps over the table, found %d" % len(lids))
+    thr = Q(1, 10 ** 10)
+    dirs = {}
+    for k, lid in enumerate(lids):
+        l = sc.loop(lid)
+        isym = l.get("sym") if l["kind"] == "enteriter" else None
+        if isym is None:
+            c = l.get("cond")
+            cand = [sy for sy in l.get("syms", {}).values() if isinstance(c, tuple) and sy in c[1:]]
+            isym = cand[0] if cand else None
+        if isym is None:
+            raise AnalysisBroken("update_ibi_pot.pl: index variable of the sweep at line %s not found" % l["line"])
+        aim, cur, pfl = el("rdf_aim", isym), el("rdf_cur", isym), el("pot_flags_cur", isym)
+        carried = [(nm, sy) for nm, sy in (l.get("syms") or {}).items() if sy != isym] if l["kind"] != "enteriter" else \
+                  [(nm, S("%s@%s" % (nm, lid))) for nm in l["step"] if nm != l["var"]]
+        if len(carried) != 1:
+            raise AnalysisBroken("update_ibi_pot.pl: the sweep at line %s carries %s around the loop (expected the last valid value only)" % (l["line"], [c_[0] for c_ in carried]))
+        vname, vsym = carried[0]
+
+        def orc(lf):
+            for atom, nm in ((aim, "A"), (cur, "C")):
+                p = threshold(lf, atom, thr)
+                if p is not None:
+                    return (nm, p)
+            if isinstance(lf, tuple) and lf and lf[0] == "match" and lf[1] == pfl and "u" in str(lf[2]):
+                return ("U", True)
+            return None
+        want_upd = S("$pref") * sp.log(cur / aim)
+        bad = None
+        for a_, c_, u_ in itertools.product((True, False), repeat=3):
+            atoms = {"A": a_, "C": c_, "U": u_}
+            valid = a_ and c_ and not u_
+            dp = sc.final("dpot", isym, lid, atoms, orc)
+            fl = sc.final("flag", isym, lid, atoms, orc)
+            nv = sc.resolve(l["step"].get(vname), atoms, orc)
+            if dp is None or fl is None or nv is None or ites(dp) or ites(nv):
+                raise AnalysisBroken("update_ibi_pot.pl sweep at line %s: update, flag or carried value undecided for %s" % (l["line"], atoms))
+            nv = nv.xreplace({el("dpot", isym): dp}) if hasattr(nv, "xreplace") else nv
+            if valid:
+                ok = leq(dp, want_upd) and str(fl) == '"i"' and leq(nv, want_upd)
+            else:
+                ok = dp == vsym and str(fl) == '"o"' and nv == vsym
+            if not ok and bad is None:
+                bad = "for rdf_aim%s1e-10, rdf_cur%s1e-10, potential flag %s: dU = %s, flag = %s, carried value -> %s" % (
+                    ">" if a_ else "<=", ">" if c_ else "<=", "u" if u_ else "not u", dp, fl, nv)
+        rep.check(bad is None, "R19.1", "ibi|update#%d" % k, "dU = kBT*ln(g_cur/g_tgt) (flag i) where both rdfs > 1e-10 and the potential is defined; else the last valid value, flag o",
+                  "update_ibi_pot.pl sweep at line %s: %s; required pref*log(rdf_cur/rdf_aim)/i for valid points and the continued last valid value/o elsewhere" % (l["line"], bad),
+                  "%s:%s" % (sc.loc, l["line"]), sample=True)
+        b = sc.bounds(lid)
+        dirs[k] = b
+    M = None
+    okb, why = False, "sweep ranges %s" % ({k_: tuple(map(str, v_)) if v_ else None for k_, v_ in dirs.items()})
+    fw = [b for b in dirs.values() if b and b[2] == 1]
+    bw = [b for b in dirs.values() if b and b[2] == -1]
+    if len(fw) == 1 and len(bw) == 1:
+        M = fw[0][0]
+        okb = sp.simplify(bw[0][0] - (M - 1)) == 0 and bw[0][1] == 0 and str(getattr(fw[0][1], "func", "")) == "last" and is_argmax(sc, M, "@rdf_cur")
+        if not okb:
+            why += "; the sweeps must start at the index of the maximum of the current rdf"
+    rep.check(okb, "R19.1", "ibi|sweeps-agree", "forward sweep from the rdf maximum to the last point, backward sweep from the point before it down to 0",
+              "update_ibi_pot.pl: %s; required max..last and max-1..0 (every point updated exactly once)" % why, sc.loc)
+    passthrough(rep, sc, "r_aim", None, written_flag="flag")
+
+
+def is_argmax(sc, M, arr):
+    """M is the index of the largest element of arr: the value a user sub called with arr leaves in its running-index variable, the sub being
+    `for i in 0..last: if (x[i] > max) { max = x[i]; index = i }`"""
+    m = re.match(r"^(\$\w+)_after_(L\d+#\d+)$", str(M))
+    if not m or not any(nm_ and arr in [str(v) for v in vals] for nm_, vals in getattr(sc.fo, "inlined_subs", [])):
+        return False
+    var, lid = m.groups()
+    l = sc.loop(lid)
+    isym = l.get("sym")
+    b = sc.bounds(lid)
+    if isym is None or not b or b[0] != 0 or str(getattr(b[1], "func", "")) != "last" or b[2] != 1:
+        return False
+    others = [nm for nm in l["step"] if nm not in (var, l["var"])]
+    if len(others) != 1:
+        return False
+    mx = others[0]
+    vs, ms = S("%s@%s" % (var, lid)), S("%s@%s" % (mx, lid))
+    x = Fn("elem")(S("@_"), isym)
+
+    def orc(lf):
+        if isinstance(lf, tuple) and len(lf) == 3 and lf[0] in (">", "<") and {lf[1], lf[2]} == {x, ms}:
+            return ("GT", (lf[0] == ">" and lf[1] == x) or (lf[0] == "<" and lf[2] == x))
+        return None
+    for gt in (True, False):
+        ni = sc.resolve(l["step"][var], {"GT": gt}, orc)
+        nm_ = sc.resolve(l["step"][mx], {"GT": gt}, orc)
+        if ni != (isym if gt else vs) or nm_ != (x if gt else ms):
+            return False
+    return True
+
+
+# ------------------------------------------------------------------------------------------------ dist_boltzmann_invert.pl
+def check_boltzmann(rep):
+    sc = Script(rep, "dist_boltzmann_invert.pl")
+    inv = [e for e in sc.stores("pot") if hasattr(e["value"], "has") and e["value"].has(sp.log)]
+    if len(inv) != 1:
+        raise AnalysisBroken("dist_boltzmann_invert.pl: expected one inversion assignment, found %d" % len(inv))
+    lid = sc.loop_of(inv[0])
+    isym = inv[0]["idx"][0]
+    dist, x = el("dist", isym), el("x", isym)
+    dmin = S("$dist_min")
+
+    def orc(lf):
+        if isinstance(lf, tuple) and len(lf) == 3 and lf[0] in ("<", "<=", ">", ">=") and {str(lf[1]), str(lf[2])} == {str(dist), str(dmin)}:
+            gt = (lf[0] == ">" and lf[1] == dist) or (lf[0] == "<" and lf[2] == dist)
+            le = (lf[0] == "<=" and lf[1] == dist) or (lf[0] == ">=" and lf[2] == dist)
+            return ("D", True) if gt else (("D", False) if le else None)
+        if isinstance(lf, tuple) and len(lf) == 3 and lf[0] in ("==", "!=") and "$type" in (str(lf[1]), str(lf[2])):
+            other = str(lf[2]) if str(lf[1]) == "$type" else str(lf[1])
+            return ("type=" + other.strip('"'), lf[0] == "==")
+        return None
+    bad = None
+    for d_ in (True, False):
+        for ty, norm in (("bond", x * x), ("angle", sp.sin(x)), ("other", sp.Integer(1))):
+            atoms = {"D": d_, "type=bond": ty == "bond", "type=angle": ty == "angle"}
+            pv = sc.final("pot", isym, lid, atoms, orc)
+            fv = sc.final("flag", isym, lid, atoms, orc)
+            if pv is None or ites(pv):
+                raise AnalysisBroken("dist_boltzmann_invert.pl: potential undecided for %s" % atoms)
+            if d_:
+                ok = leq(pv, -S("$kbT") * sp.log(dist / norm)) and fv is None
+                want = "-kbT*log(dist/%s), flag kept" % norm
+            else:
+                ok = str(pv) == '"nan"' and str(fv) == '"u"'
+                want = "nan with flag u"
+            if not ok and bad is None:
+                bad = "for dist %s dist_min and type %s the point gets %s (flag %s); required %s" % (">" if d_ else "<=", ty, pv, fv if fv is not None else "kept", want)
+    rep.check(bad is None, "R19.1", "boltzmann|formula", "U = -kBT ln(P/norm) where P > dist_min, norm = 1 / x^2 (bond) / sin x (angle); nan and flag u elsewhere",
+              "dist_boltzmann_invert.pl: " + (bad or ""), sc.loc, sample=True)
+    b = sc.bounds(lid)
+    rep.check(b is not None and b[0] == 0 and str(getattr(b[1], "func", "")) == "last" and b[2] == 1, "R19.1", "boltzmann|norm", "every table point 0..last is inverted",
+              "dist_boltzmann_invert.pl: the inversion loop runs over %s" % ((tuple(map(str, b)),) if b else "an unrecognised range"), sc.loc, sample=True)
+    passthrough(rep, sc, "x", "flag")
+
+
+# ------------------------------------------------------------------------------------------------ table_linearop.pl
+def check_linearop(rep):
+    sc = Script(rep, "table_linearop.pl")
+    a_, b_ = S("$a"), S("$b")
+    got = {}
+    for arr, want in (("val", lambda e: a_ * e + b_), ("r", lambda e: a_ * e + b_), ("errors", lambda e: a_ * e)):
+        st = sc.stores(arr)
+        ok = len(st) == 1 and not isinstance(st[0]["value"], tuple) and is_zero(st[0]["value"] - want(el(arr, st[0]["idx"][0])))
+        got[arr] = (ok, [str(e["value"]) for e in st])
+    rep.check(all(v[0] for v in got.values()), "R19.1", "linearop|formula", "y' = a*y + b, x' = a*x + b, err' = a*err", "table_linearop.pl computes %s" % {k: v[1] for k, v in got.items()}, sc.loc, sample=True)
+    passthrough(rep, sc, "r", "flag")
+
+
+# ------------------------------------------------------------------------------------------------ potential_shift.pl
+def check_shift(rep):
+    sc = Script(rep, "potential_shift.pl")
+    sh = sc.stores("dpot")
+    ok, zero_used, got = False, None, [(str(e["value"]), e.get("op")) for e in sh]
+    if len(sh) == 1:
+        e = sh[0]
+        i = e["idx"][0]
+        inner = PF.inner(e)
+        uncond = not inner["guards"] and not inner["not"]
+        z = sp.expand(el("dpot", i) - e["value"])
+        ok = uncond and not z.has(el("dpot", i))
+        zero_used = z
+    rep.check(ok, "R19.1", "shift|formula", "y[i] -= zero for every point", "potential_shift.pl shifts with %s" % got, sc.loc, sample=True)
+    # the shift: last point for non-bonded tables, otherwise the minimum over the points flagged i (the first one initialises it)
+    loops = [l for l in sc.fo.loops if "$zero" in (l.get("step") or {}) and l["step"]["$zero"] is not None and l["kind"] != "enteriter" or
+             (l["kind"] == "enteriter" and "$zero" in (l.get("step") or {}))]
+    okz, why = False, "the loop that determines the bonded shift was not found"
+    if zero_used is not None and len(loops) == 1:
+        l = loops[0]
+        lid = l["id"]
+        zs = S("$zero@%s" % lid)
+        isym = l.get("sym") or [sy for nm, sy in l.get("syms", {}).items() if nm != "$zero"][0]
+        dp, fl = el("dpot", isym), el("flag", isym)
+
+        def orc(lf):
+            if isinstance(lf, tuple) and lf and lf[0] == "match" and lf[1] == fl and "i" in str(lf[2]):
+                return ("F", True)
+            if isinstance(lf, tuple) and lf and lf[0] == "defined" and lf[1] == zs:
+                return ("DEF", True)
+            if isinstance(lf, tuple) and len(lf) == 3 and lf[0] in ("<", ">") and {lf[1], lf[2]} == {dp, zs}:
+                lt = (lf[0] == "<" and lf[1] == dp) or (lf[0] == ">" and lf[2] == dp)
+                return ("LT", lt)
+            return None
+        okz, why = True, ""
+        for f_, d_, t_ in itertools.product((True, False), repeat=3):
+            atoms = {"F": f_, "DEF": d_, "LT": t_}
+            nv = sc.resolve(l["step"]["$zero"], atoms, orc)
+            if nv is None or (hasattr(nv, "args") and ites(nv)):
+                okz, why = False, "the new minimum is undecided for flag-i=%s, defined=%s, smaller=%s (a truthiness test instead of defined() loses a minimum that is exactly 0)" % (f_, d_, t_)
+                break
+            want = dp if (f_ and ((not d_) or t_)) else zs
+            if nv != want:
+                okz, why = False, "for flag-i=%s, zero defined=%s, y[i] < zero=%s the running minimum becomes %s, required %s" % (f_, d_, t_, nv, want)
+                break
+        init = l.get("init", {}).get("$zero")
+        if okz and str(init) != "undef":
+            okz, why = False, "the running minimum starts as %s, not undef" % init
+        b = sc.bounds(lid)
+        if okz and not (b and b[0] == 0 and str(getattr(b[1], "func", "")) == "last" and b[2] == 1):
+            okz, why = False, "the minimum is searched over %s, not over all points" % ((tuple(map(str, b)),) if b else "an unrecognised range")
+    rep.check(okz, "R19.1", "shift|zero", "zero = minimum over points flagged i, the first one taken while zero is still undefined",
+              "potential_shift.pl: " + why, sc.loc, sample=True)
+    oknb = False
+    if zero_used is not None:
+        def orc2(lf):
+            if isinstance(lf, tuple) and len(lf) == 3 and lf[0] in ("==", "!=") and "$type" in (str(lf[1]), str(lf[2])) and '"non-bonded"' in (str(lf[1]), str(lf[2])):
+                return ("NB", lf[0] == "==")
+            return None
+        znb = sc.resolve(zero_used, {"NB": True}, orc2)
+        zb = sc.resolve(zero_used, {"NB": False}, orc2)
+        oknb = str(znb) == "elem(@dpot, last(@r))" and str(zb) == "$zero"
+    rep.check(oknb, "R19.1", "shift|non-bonded", "non-bonded: shift by the last point; bonded: by the minimum", "the shift is %s" % zero_used, sc.loc)
+    passthrough(rep, sc, "r", "flag")
+
+
+# ------------------------------------------------------------------------------------------------ table_smooth.pl
+def check_smooth(rep):
+    sc = Script(rep, "table_smooth.pl")
+    pc = lambda k: el("pot_cur", k)
+    loops = [l for l in sc.fo.loops if any(in_loop(e, l["id"]) for e in sc.stores("pot"))]
+    if len(loops) != 1:
+        raise AnalysisBroken("table_smooth.pl: expected one loop over the interior points, found %d" % len(loops))
+    lid = loops[0]["id"]
+    isym = [sy for sy in loops[0]["syms"].values()][0] if loops[0]["kind"] != "enteriter" else loops[0]["sym"]
+    last = Fn("last")(S("@pot_cur"))
+
+    def flag_oracle(idx):
+        fl = el("flag_cur", idx)
+
+        def orc(lf):
+            if isinstance(lf, tuple) and len(lf) == 3 and lf[0] in ("==", "!=") and fl in (lf[1], lf[2]) and '"i"' in (str(lf[1]), str(lf[2])):
+                return ("FI", lf[0] == "==")
+            if isinstance(lf, tuple) and lf and lf[0] == "match" and lf[1] == fl and "i" in str(lf[2]):
+                return ("FI", True)
+            return None
+        return orc
+    res = {}
+    for nm, idx, l_, want in (("interior", isym, lid, Q(1, 4) * pc(isym - 1) + Q(1, 2) * pc(isym) + Q(1, 4) * pc(isym + 1)),
+                              ("first", sp.Integer(0), None, (2 * pc(sp.Integer(0)) + pc(sp.Integer(1))) / 3),
+                              ("last", last, None, (2 * pc(last) + pc(last - 1)) / 3)):
+        orc = flag_oracle(idx)
+        vi = sc.final("pot", idx, l_, {"FI": True}, orc) if l_ else final_top(sc, "pot", idx, {"FI": True}, orc)
+        vo = sc.final("pot", idx, l_, {"FI": False}, orc) if l_ else final_top(sc, "pot", idx, {"FI": False}, orc)
+        res[nm] = (vi is not None and vo is not None and is_zero(vi - want) and is_zero(vo - pc(idx)), vi, vo)
+    rep.check(res["interior"][0], "R19.1", "smooth|interior", "(1/4, 1/2, 1/4) stencil for interior points flagged i, others unchanged",
+              "table_smooth.pl interior point: flagged i -> %s, otherwise -> %s" % (res["interior"][1], res["interior"][2]), sc.loc, sample=True)
+    rep.check(res["first"][0] and res["last"][0], "R19.1", "smooth|ends", "(2 y0 + y1)/3 at both ends when flagged i, unchanged otherwise",
+              "table_smooth.pl end points: first -> %s / %s, last -> %s / %s" % (res["first"][1], res["first"][2], res["last"][1], res["last"][2]), sc.loc, sample=True)
+    b = sc.bounds(lid)
+    okb = b is not None and b[0] == 1 and b[2] == 1 and sp.simplify(b[1] - (Fn("last")(S("@r_cur")) - 1)) == 0 or \
+        (b is not None and b[0] == 1 and b[2] == 1 and str(getattr(sp.simplify(b[1] + 1), "func", "")) == "last")
+    rep.check(okb, "R19.1", "smooth|unflagged-kept", "interior loop covers the points 1..last-1", "table_smooth.pl interior loop runs over %s" % ((tuple(map(str, b)),) if b else "?"), sc.loc)
+    passthrough(rep, sc, "r_cur", "flag_cur")
+
+
+def final_top(sc, arr, idx, atoms, orc):
+    val = None
+    for e in sc.stores(arr):
+        if sc.loop_of(e) is not None or sp.simplify(e["idx"][0] - idx) != 0:
+            continue
+        gs = [g for g in e["guards"] if "elem(@flag_cur" in str(g[0])]
+        x = executes({"guards": gs, "not": []}, None, atoms, orc, sc.conds)
+        if x is None:
+            raise AnalysisBroken("%s line %s: cannot decide whether %s is written" % (sc.name, e["line"], e["target"]))
+        if x:
+            val = sc.resolve(e["value"], atoms, orc)
+    return val
+
+
+# ------------------------------------------------------------------------------------------------ table_integrate.pl
+def check_integrate(rep):
+    sc = Script(rep, "table_integrate.pl")
+    r_ = lambda k: el("r", k)
+    f_ = lambda k: el("force", k)
+    pots = [e for e in sc.stores("pot") if sc.loop_of(e) is not None and hasattr(e["value"], "has") and e["value"].has(Fn("elem")) and not e["value"].is_number]
+    rep.floor("R19.1", len(pots), 2, "trapezoid recurrences")
+    seen = set()
+    for e in pots:
+        i = e["idx"][0]
+        gl = [sc.fo.cond_str(g[0]) + ("" if g[1] else " [false]") for g in e["guards"] if "$from" in sc.fo.cond_str(g[0])]
+        right = any('"right"' in g and "[false]" not in g for g in gl) or any('"left"' in g and "[false]" in g for g in gl)
+        if right:
+            want = el("pot", i + 1) - Q(1, 2) * (r_(i + 1) - r_(i)) * (f_(i + 1) + f_(i))
+        else:
+            want = el("pot", i - 1) + Q(1, 2) * (r_(i) - r_(i - 1)) * (f_(i) + f_(i - 1))
+        seen.add(right)
+        rep.check(is_zero(e["value"] - want), "R19.1", "integrate|%s" % ("right" if right else "left"), "trapezoid: U_i = U_(i+-1) -+ (r_(i+1)-r_i)/2 (f_i + f_(i+-1))",
+                  "table_integrate.pl (%s) recurrence is %s" % ("from right" if right else "from left", e["value"]), "%s:%s" % (sc.loc, e["line"]), sample=True)
+    if seen != {True, False}:
+        raise AnalysisBroken("table_integrate.pl: both integration directions expected, found %s" % seen)
+    start = {str(e["idx"][0]): e["value"] for e in sc.stores("pot") if sc.loop_of(e) is None and e["value"] == 0}
+    rep.check(set(start) == {"0", "last(@r)"}, "R19.1", "integrate|origin", "integration constant: U = 0 at the starting end", "table_integrate.pl does not start from 0 at the chosen end (%s)" % start, sc.loc)
+    passthrough(rep, sc, "r", "flag")
+
+
+# ------------------------------------------------------------------------------------------------ pass-through
+def passthrough(rep, sc, xarr, flagarr, written_flag=None):
+    cs = [e for e in sc.fo.events if e["kind"] == "call"]
+    reads = [e for e in cs if e["callee"] in ("readin_table", "readin_table_err")]
+    saves = [e for e in cs if e["callee"] in ("saveto_table", "saveto_table_err")]
     if not reads or not saves:
-        rep.broken("R19.2", "%s: readin_table/saveto_table calls not found" % sc)
+        rep.broken("R19.2", "%s: readin_table/saveto_table calls not found" % sc.name)
         return
-    okx = all(len(c[1]) >= 2 and c[1][1] == "@" + xarr for c in saves) and any(len(c[1]) >= 2 and c[1][1] == "@" + xarr for c in reads)
-    rep.check(okx, "R19.2", "grid|" + sc, "saved grid array @%s is the one read" % xarr, "%s writes grid %s but reads %s: the table is not returned on the same grid" % (
-        sc, [c[1][1] if len(c[1]) > 1 else "?" for c in saves], [c[1][1] if len(c[1]) > 1 else "?" for c in reads]), loc, sample=(sc == "potential_shift.pl"))
+    nm = lambda e, k: (e["arg_names"][k] if len(e["arg_names"]) > k else None)
+    okx = all(nm(c, 1) == "@" + xarr for c in saves) and any(nm(c, 1) == "@" + xarr for c in reads)
+    rep.check(okx, "R19.2", "grid|" + sc.name, "saved grid array @%s is the one read" % xarr, "%s writes grid %s but reads %s: the table is not returned on the same grid" % (
+        sc.name, [nm(c, 1) for c in saves], [nm(c, 1) for c in reads]), sc.loc, sample=(sc.name == "potential_shift.pl"))
     if flagarr:
-        okf = all(("@" + flagarr) in c[1] for c in saves) and any(("@" + flagarr) in c[1] for c in reads)
-        rep.check(okf, "R19.2", "flags|" + sc, "saved flag array @%s is the one read" % flagarr, "%s does not hand the flags it read to saveto_table (%s)" % (sc, [c[1] for c in saves]), loc)
+        okf = all(("@" + flagarr) in c["arg_names"] for c in saves) and any(("@" + flagarr) in c["arg_names"] for c in reads)
+        rep.check(okf, "R19.2", "flags|" + sc.name, "saved flag array @%s is the one read" % flagarr, "%s does not hand the flags it read to saveto_table (%s)" % (sc.name, [c["arg_names"] for c in saves]), sc.loc)
     elif written_flag:
-        rep.check(all(("@" + written_flag) in c[1] for c in saves), "R19.2", "flags|" + sc, "script writes its own flag array @%s" % written_flag, "%s saves flags %s" % (sc, [c[1] for c in saves]), loc)
+        rep.check(all(("@" + written_flag) in c["arg_names"] for c in saves), "R19.2", "flags|" + sc.name, "script writes its own flag array @%s" % written_flag,
+                  "%s saves flags %s" % (sc.name, [c["arg_names"] for c in saves]), sc.loc)
